@@ -39,6 +39,11 @@ pub enum Amf0SerializationError {
     #[error("String length greater than 65,535")]
     NormalStringTooLong,
 
+    /// Encountered when an object contains a property with an empty name, which cannot be
+    /// represented in AMF0 (an empty name marks the end of an object)
+    #[error("Object property names cannot be empty")]
+    EmptyObjectPropertyName,
+
     /// An I/O error occurred while writing to the output buffer.
     #[error("Failed to write to byte buffer")]
     BufferWriteError(#[from] io::Error),
